@@ -22,8 +22,10 @@ Proof.
 Qed.
 Lemma col_eqb_sound a b : col_eqb a b = true -> a = b.
 Proof.
-  destruct a, b; unfold col_eqb; simpl. intros E. apply andb_true_iff in E as [E1 E2].
-  apply N.eqb_eq in E1, E2. congruence.
+  destruct a as [n1 t1 d1], b as [n2 t2 d2]; unfold col_eqb; simpl. intros E.
+  apply andb_true_iff in E as [E E3]. apply andb_true_iff in E as [E1 E2].
+  apply N.eqb_eq in E1, E2. subst. f_equal.
+  destruct d1, d2; simpl in E3; try discriminate; auto. apply value_eqb_sound in E3. congruence.
 Qed.
 Lemma table_eqb_sound a b : table_eqb a b = true -> a = b.
 Proof.
@@ -102,7 +104,7 @@ Proof. intros E. now rewrite exec_list_app, E. Qed.
 Lemma exec_stmt_user_snd {A} (rd : A -> value) d s d' :
   is_vstmt s = false -> exec_stmt rd d s = Some d' -> snd d' = snd d.
 Proof. unfold exec_stmt. intros ->. destruct (exec_u rd (fst d) s); intros E; inversion E; auto. Qed.
-Lemma compile_op_user {A} (f g : value -> A) o : forallb (fun s => negb (is_vstmt s)) (compile_op f g o) = true.
+Lemma compile_op_user {A} (f g : value -> A) (e : text -> A) o : forallb (fun s => negb (is_vstmt s)) (compile_op f g e o) = true.
 Proof.
   destruct o; simpl; auto.
   - induction rows; simpl; auto.
@@ -116,41 +118,79 @@ Proof.
   destruct (exec_stmt rd d s) as [d1|] eqn:E1; try discriminate.
   rewrite (IH H2 _ _ E). eapply exec_stmt_user_snd; eauto.
 Qed.
-Lemma body_user {A} (f g : value -> A) b : forallb (fun s => negb (is_vstmt s)) (flat_map (compile_op f g) b) = true.
+Lemma body_user {A} (f g : value -> A) (e : text -> A) b : forallb (fun s => negb (is_vstmt s)) (flat_map (compile_op f g e) b) = true.
 Proof. induction b as [|o b IH]; simpl; auto. rewrite forallb_app, compile_op_user, IH. reflexivity. Qed.
 
-(* two readings of the literal positions that agree on the values of an operation give the same execution *)
-Lemma exec_insert_ext {A B} (rdA : A -> value) (rdB : B -> value) (fA : value -> A) (fB : value -> B) d t row :
-  (forall v, In v row -> rdA (fA v) = rdB (fB v)) ->
-  exec_stmt rdA d (SInsert t (map fA row)) = exec_stmt rdB d (SInsert t (map fB row)).
+(* two readings of the literal positions that agree on the literals of an operation give the same execution *)
+Lemma fill_row_ext {A B} (rdA : A -> value) (rdB : B -> value) {V} (fA : V -> A) (fB : V -> B) cols : forall cells,
+  (forall v, In v (somes cells) -> rdA (fA v) = rdB (fB v)) ->
+  fill_row rdA cols (map (option_map fA) cells) = fill_row rdB cols (map (option_map fB) cells).
 Proof.
-  intros H. unfold exec_stmt; simpl. rewrite !map_length, !map_map.
-  rewrite (map_ext_in _ _ row H). reflexivity.
+  induction cols as [|c cols IH]; intros [|x cells] H; simpl; auto.
+  destruct x as [v|]; simpl in *.
+  - rewrite (H v (or_introl eq_refl)). f_equal. apply IH. intros w Hw; apply H; auto.
+  - f_equal. apply IH. auto.
 Qed.
-Lemma compile_op_ext {A B} (rdA : A -> value) (rdB : B -> value) (fA gA : value -> A) (fB gB : value -> B) o :
-  (forall v, In v (op_values o) -> rdA (fA v) = rdB (fB v) /\ rdA (gA v) = rdB (gB v)) ->
-  forall d, exec_list rdA d (compile_op fA gA o) = exec_list rdB d (compile_op fB gB o).
+Lemma exec_insert_ext {A B} (rdA : A -> value) (rdB : B -> value) {V} (fA : V -> A) (fB : V -> B) d t row :
+  (forall v, In v (somes row) -> rdA (fA v) = rdB (fB v)) ->
+  exec_stmt rdA d (SInsert t (map (option_map fA) row)) = exec_stmt rdB d (SInsert t (map (option_map fB) row)).
 Proof.
-  intros H d. destruct o; try reflexivity.
+  intros H. unfold exec_stmt; simpl. rewrite !map_length.
+  destruct (find_tab (u_tabs (fst d)) t) as [T|]; auto.
+  rewrite (fill_row_ext rdA rdB fA fB (t_cols T) row H). reflexivity.
+Qed.
+Lemma read_col_ext {A B} (rdA : A -> value) (rdB : B -> value) (fA : value -> A) (fB : value -> B) c :
+  (forall v, In v (col_values c) -> rdA (fA v) = rdB (fB v)) ->
+  read_col rdA (compile_col fA c) = read_col rdB (compile_col fB c).
+Proof.
+  destruct c as [n t [v|]]; unfold read_col, compile_col, col_values; simpl; intros H; auto.
+  now rewrite (H v (or_introl eq_refl)).
+Qed.
+Lemma read_cols_ext {A B} (rdA : A -> value) (rdB : B -> value) (fA : value -> A) (fB : value -> B) cols :
+  (forall v, In v (flat_map col_values cols) -> rdA (fA v) = rdB (fB v)) ->
+  map (read_col rdA) (map (compile_col fA) cols) = map (read_col rdB) (map (compile_col fB) cols).
+Proof.
+  induction cols as [|c cols IH]; simpl; intros H; auto. f_equal.
+  - apply read_col_ext. intros v Hv. apply H. apply in_or_app; auto.
+  - apply IH. intros v Hv. apply H. apply in_or_app; auto.
+Qed.
+Lemma sc_names {A} (f : value -> A) cols : map sc_name (map (compile_col f) cols) = map c_name cols.
+Proof. rewrite map_map. reflexivity. Qed.
+
+Lemma compile_op_ext {A B} (rdA : A -> value) (rdB : B -> value)
+      (fA dA : value -> A) (eA : text -> A) (fB dB : value -> B) (eB : text -> B) o :
+  (forall v, In v (op_values o) -> rdA (fA v) = rdB (fB v) /\ rdA (dA v) = rdB (dB v)) ->
+  (forall w, In w (op_texts o) -> rdA (eA w) = rdB (eB w)) ->
+  forall d, exec_list rdA d (compile_op fA dA eA o) = exec_list rdB d (compile_op fB dB eB o).
+Proof.
+  intros H HT d. destruct o; try reflexivity.
+  - (* CreateTable *) simpl in *. unfold exec_stmt; simpl. rewrite !sc_names.
+    rewrite (read_cols_ext rdA rdB dA dB cols) by (intros v Hv; apply H; auto).
+    destruct cols; reflexivity.
+  - (* AddColumn *) simpl in *. unfold exec_stmt; simpl.
+    rewrite (read_col_ext rdA rdB dA dB c) by (intros v Hv; apply H; auto). reflexivity.
   - (* BulkInsert *) simpl in *. revert d. induction rows as [|row rows IH]; intros d; simpl; auto.
     rewrite (exec_insert_ext rdA rdB fA fB d t row).
     2:{ intros v Hv. apply H. simpl. apply in_or_app; auto. }
-    destruct (exec_stmt rdB d (SInsert t (map fB row))); auto.
+    destruct (exec_stmt rdB d (SInsert t (map (option_map fB) row))); auto.
     apply IH. intros v Hv. apply H. simpl. apply in_or_app; auto.
   - (* Execute *) destruct r; simpl in *.
-    + rewrite (exec_insert_ext rdA rdB gA gB d t vals); auto. intros v Hv; apply H; auto.
+    + rewrite (exec_insert_ext rdA rdB eA eB d t cells); auto.
     + reflexivity.
-    + unfold exec_stmt; simpl. destruct (H v (or_introl eq_refl)) as [_ ->]. reflexivity.
+    + unfold exec_stmt; simpl. rewrite (HT w (or_introl eq_refl)). reflexivity.
 Qed.
-Lemma body_ext {A B} (rdA : A -> value) (rdB : B -> value) (fA gA : value -> A) (fB gB : value -> B) b :
-  (forall v, In v (flat_map op_values b) -> rdA (fA v) = rdB (fB v) /\ rdA (gA v) = rdB (gB v)) ->
-  forall d, exec_list rdA d (flat_map (compile_op fA gA) b) = exec_list rdB d (flat_map (compile_op fB gB) b).
+Lemma body_ext {A B} (rdA : A -> value) (rdB : B -> value)
+      (fA dA : value -> A) (eA : text -> A) (fB dB : value -> B) (eB : text -> B) b :
+  (forall v, In v (flat_map op_values b) -> rdA (fA v) = rdB (fB v) /\ rdA (dA v) = rdB (dB v)) ->
+  (forall w, In w (flat_map op_texts b) -> rdA (eA w) = rdB (eB w)) ->
+  forall d, exec_list rdA d (flat_map (compile_op fA dA eA) b) = exec_list rdB d (flat_map (compile_op fB dB eB) b).
 Proof.
-  induction b as [|o b IH]; intros H d; simpl; auto.
-  rewrite !exec_list_app. rewrite (compile_op_ext rdA rdB fA gA fB gB o).
+  induction b as [|o b IH]; intros H HT d; simpl; auto.
+  rewrite !exec_list_app. rewrite (compile_op_ext rdA rdB fA dA eA fB dB eB o).
   2:{ intros v Hv. apply H. simpl. apply in_or_app; auto. }
-  destruct (exec_list rdB d (compile_op fB gB o)); auto.
-  apply IH. intros v Hv. apply H. simpl. apply in_or_app; auto.
+  2:{ intros w Hw. apply HT. simpl. apply in_or_app; auto. }
+  destruct (exec_list rdB d (compile_op fB dB eB o)); auto.
+  apply IH. { intros v Hv. apply H. simpl. apply in_or_app; auto. } { intros w Hw. apply HT. simpl. apply in_or_app; auto. }
 Qed.
 
 (* ---- version-table bookkeeping *)
@@ -191,6 +231,7 @@ Qed.
 Section Lit.
   Variable lit : value -> text.
   Variable parse_lit : text -> value.
+  Variable untext : text -> text.
 
   Lemma hm_apply_NoDup h s h' : NoDup h -> hm_apply h s = Some h' -> NoDup h'.
   Proof.
@@ -245,17 +286,19 @@ Section Lit.
   Qed.
 
   (* ---- literals *)
-  Definition lits_ok (vals : list value) : Prop :=
-    forall v, In v vals -> parse_lit (lit v) = v /\ no_tab (lit v) = true.
+  Definition lits_ok (vals : list value) (texts : list text) : Prop :=
+    (forall v, In v vals -> parse_lit (lit v) = v /\ no_tab (lit v) = true) /\
+    (forall w, In w texts -> no_tab (untext w) = true).
 
-  Lemma body_sim b : lits_ok (flat_map op_values b) ->
-    forall d, exec_list parse_lit d (body_off lit b) = exec_list (rd_on parse_lit) d (body_on lit b).
+  Lemma body_sim b : lits_ok (flat_map op_values b) (flat_map op_texts b) ->
+    forall d, exec_list parse_lit d (body_off lit untext b) = exec_list (rd_on parse_lit) d (body_on lit untext b).
   Proof.
-    intros H d. unfold body_off, body_on, compile_off, compile_on. apply body_ext.
-    intros v Hv. destruct (H v Hv) as [R T]. unfold off_lit. simpl.
-    rewrite (post_identity lit parse_lit v R T). auto.
+    intros [H HT] d. unfold body_off, body_on, compile_off, compile_on. apply body_ext.
+    - intros v Hv. destruct (H v Hv) as [R T]. unfold off_lit. simpl.
+      rewrite (post_identity lit parse_lit v R T). auto.
+    - intros w Hw. unfold off_text, post. simpl. now rewrite (replace_tab_id _ (HT w Hw)).
   Qed.
-  Lemma body_on_snd b d d' : exec_list (rd_on parse_lit) d (body_on lit b) = Some d' -> snd d' = snd d.
+  Lemma body_on_snd b d d' : exec_list (rd_on parse_lit) d (body_on lit untext b) = Some d' -> snd d' = snd d.
   Proof. apply exec_list_user_snd. apply body_user. Qed.
 
   (* ---- the step invariant: offline HeadMaintainer.heads = online version rows, user tables equal *)
@@ -285,32 +328,34 @@ Section Lit.
     end.
 
   Lemma steps_sim steps : forall h doff,
-    NoDup h -> off_pre doff h -> mid_nonempty h steps = true -> lits_ok (steps_values steps) ->
-    match off_steps lit h steps with
-    | None => on_steps lit parse_lit (fst doff, Some h) h steps = None
-    | Some (s, hf) => sim_result steps doff hf (exec_list parse_lit doff s) (on_steps lit parse_lit (fst doff, Some h) h steps)
+    NoDup h -> off_pre doff h -> mid_nonempty h steps = true -> lits_ok (steps_values steps) (steps_texts steps) ->
+    match off_steps lit untext h steps with
+    | None => on_steps lit parse_lit untext (fst doff, Some h) h steps = None
+    | Some (s, hf) => sim_result steps doff hf (exec_list parse_lit doff s) (on_steps lit parse_lit untext (fst doff, Some h) h steps)
     end.
   Proof.
     induction steps as [|st r IH]; intros h doff ND P M L.
     { simpl. repeat split; auto. }
-    assert (Lb : lits_ok (flat_map op_values (s_body st))).
-    { intros v Hv. apply L. unfold steps_values. simpl. apply in_or_app; auto. }
-    assert (Lr : lits_ok (steps_values r)).
-    { intros v Hv. apply L. unfold steps_values. simpl. apply in_or_app; auto. }
+    assert (Lb : lits_ok (flat_map op_values (s_body st)) (flat_map op_texts (s_body st))).
+    { destruct L as [L1 L2]. split; [intros v Hv; apply L1|intros v Hv; apply L2];
+        unfold steps_values, steps_texts; simpl; apply in_or_app; auto. }
+    assert (Lr : lits_ok (steps_values r) (steps_texts r)).
+    { destruct L as [L1 L2]. split; [intros v Hv; apply L1|intros v Hv; apply L2];
+        unfold steps_values, steps_texts; simpl; apply in_or_app; auto. }
     cbn [off_steps on_steps].
     rewrite <- (body_sim (s_body st) Lb).
     pose proof (pre_sim doff h P) as Hpre.
     destruct (hm_list h (s_bk st)) as [h'|] eqn:Ehm.
     2:{ (* the heads bookkeeping fails: online fails as well (in the body or in the bookkeeping) *)
-        destruct (exec_list parse_lit (fst doff, Some h) (body_off lit (s_body st))) as [d1|] eqn:Eb; auto.
+        destruct (exec_list parse_lit (fst doff, Some h) (body_off lit untext (s_body st))) as [d1|] eqn:Eb; auto.
         assert (S1 : snd d1 = Some h).
         { rewrite (body_sim (s_body st) Lb) in Eb. now rewrite (body_on_snd _ _ _ Eb). }
         destruct d1 as [u1 v1]; simpl in S1; subst v1.
         pose proof (bk_sim (s_bk st) u1 h ND) as B. rewrite Ehm in B. now rewrite B. }
     assert (N' : NoDup h') by (eapply hm_list_NoDup; eauto).
     (* the common prefix of the two runs *)
-    destruct (exec_list parse_lit (fst doff, Some h) (body_off lit (s_body st))) as [d1|] eqn:Eb.
-    2:{ destruct (off_steps lit h' r) as [[s hf]|]; auto.
+    destruct (exec_list parse_lit (fst doff, Some h) (body_off lit untext (s_body st))) as [d1|] eqn:Eb.
+    2:{ destruct (off_steps lit untext h' r) as [[s hf]|]; auto.
         unfold sim_result. rewrite (app_some _ _ _ _ _ Hpre), (app_none _ _ _ _ Eb). exact I. }
     assert (S1 : snd d1 = Some h).
     { rewrite (body_sim (s_body st) Lb) in Eb. now rewrite (body_on_snd _ _ _ Eb). }
@@ -321,9 +366,9 @@ Section Lit.
       simpl. unfold sim_result. rewrite (app_some _ _ _ _ _ Hpre), (app_some _ _ _ _ _ Eb), (app_some _ _ _ _ _ B2). simpl. auto.
     - destruct (mid_step _ _ _ _ _ M Ehm) as [Hne M'].
       specialize (IH h' (u1, Some h') N' (or_introl (conj eq_refl Hne)) M' Lr). simpl fst in IH.
-      destruct (off_steps lit h' (st2 :: r2)) as [[s hf]|]; auto.
+      destruct (off_steps lit untext h' (st2 :: r2)) as [[s hf]|]; auto.
       unfold sim_result in *. rewrite (app_some _ _ _ _ _ Hpre), (app_some _ _ _ _ _ Eb), (app_some _ _ _ _ _ B2).
-      destruct (exec_list parse_lit (u1, Some h') s) as [dd1|], (on_steps lit parse_lit (u1, Some h') h' (st2 :: r2)) as [[dd2 hh2]|]; auto.
+      destruct (exec_list parse_lit (u1, Some h') s) as [dd1|], (on_steps lit parse_lit untext (u1, Some h') h' (st2 :: r2)) as [[dd2 hh2]|]; auto.
   Qed.
 
   Definition db_at (d : db) (start : list N) : Prop :=
@@ -333,10 +378,11 @@ Section Lit.
     db_at d start -> mid_nonempty start steps = true -> (start = [] -> steps <> []) ->
     (forall v, In v (steps_values steps) -> parse_lit (lit v) = v) ->
     (forall v, In v (steps_values steps) -> no_tab (lit v) = true) ->
-    option_map observable (offline_effect lit parse_lit d start steps) = option_map observable (run_online lit parse_lit d steps).
+    (forall w, In w (steps_texts steps) -> no_tab (untext w) = true) ->
+    option_map observable (offline_effect lit parse_lit untext d start steps) = option_map observable (run_online lit parse_lit untext d steps).
   Proof.
-    intros [ND S] M NE R T.
-    assert (L : lits_ok (steps_values steps)) by (intros v Hv; split; auto).
+    intros [ND S] M NE R T TT.
+    assert (L : lits_ok (steps_values steps) (steps_texts steps)) by (split; auto).
     assert (P : off_pre d start).
     { destruct start; [right|left]; split; auto. discriminate. }
     assert (D1 : (match vers_rows d with [] => ensure_version_table d | _ => d end) = (fst d, Some start) /\ vers_rows d = start).
@@ -350,10 +396,10 @@ Section Lit.
       unfold observable. simpl. rewrite S. reflexivity. }
     pose proof (steps_sim (st :: r) start d ND P M L) as SS.
     unfold offline_effect, run_online, run_offline, replay. rewrite D1, D2.
-    destruct (off_steps lit start (st :: r)) as [[s hf]|].
+    destruct (off_steps lit untext start (st :: r)) as [[s hf]|].
     2:{ rewrite SS. reflexivity. }
     unfold sim_result in SS. cbv beta iota. rewrite (exec_list_app parse_lit s _ d).
-    destruct (exec_list parse_lit d s) as [d1|], (on_steps lit parse_lit (fst d, Some start) start (st :: r)) as [[d2 h2]|];
+    destruct (exec_list parse_lit d s) as [d1|], (on_steps lit parse_lit untext (fst d, Some start) start (st :: r)) as [[d2 h2]|];
       try contradiction; auto.
     destruct SS as [F [-> [S2 S1]]].
     destruct hf as [|x hf].
@@ -367,18 +413,19 @@ End Lit.
 Section Heads.
   Variable lit : value -> text.
   Variable parse_lit : text -> value.
+  Variable untext : text -> text.
   Theorem heads_invariant steps : forall d h s hf d2 h2,
     snd d = Some h -> NoDup h ->
-    off_steps lit h steps = Some (s, hf) -> on_steps lit parse_lit d h steps = Some (d2, h2) ->
+    off_steps lit untext h steps = Some (s, hf) -> on_steps lit parse_lit untext d h steps = Some (d2, h2) ->
     h2 = hf /\ snd d2 = Some hf /\ NoDup hf.
   Proof.
     induction steps as [|st r IH]; intros d h s hf d2 h2 S ND Eoff Eon.
     { simpl in *. inversion Eoff; inversion Eon; subst. auto. }
     cbn [off_steps on_steps] in *.
     destruct (hm_list h (s_bk st)) as [h'|] eqn:Ehm; try discriminate.
-    destruct (off_steps lit h' r) as [[s' hf']|] eqn:Er; try discriminate. inversion Eoff; subst hf'. clear Eoff.
-    destruct (exec_list (rd_on parse_lit) d (body_on lit (s_body st))) as [d1|] eqn:Eb; try discriminate.
-    pose proof (body_on_snd lit parse_lit _ _ _ Eb) as S1. rewrite S in S1.
+    destruct (off_steps lit untext h' r) as [[s' hf']|] eqn:Er; try discriminate. inversion Eoff; subst hf'. clear Eoff.
+    destruct (exec_list (rd_on parse_lit) d (body_on lit untext (s_body st))) as [d1|] eqn:Eb; try discriminate.
+    pose proof (body_on_snd lit parse_lit untext _ _ _ Eb) as S1. rewrite S in S1.
     destruct d1 as [u1 v1]; simpl in S1; subst v1.
     pose proof (bk_sim parse_lit (s_bk st) u1 h ND) as B. rewrite Ehm in B. destruct B as [B _]. rewrite B in Eon.
     eapply (IH (u1, Some h') h'); eauto. eapply hm_list_NoDup; eauto.
@@ -440,23 +487,27 @@ Proof.
   - now apply db_atb_sound.
   - intros E. rewrite E in NE. destruct (i_steps i); discriminate.
   - intros v Hv. unfold lits_roundtripb in R. rewrite forallb_forall in R. apply value_eqb_sound. auto.
-  - intros v Hv. unfold no_tab_in_literalsb in T. rewrite forallb_forall in T. auto.
+  - intros v Hv. unfold no_tab_in_literalsb in T. apply andb_true_iff in T as [T _]. rewrite forallb_forall in T. auto.
+  - intros v Hv. unfold no_tab_in_literalsb in T. apply andb_true_iff in T as [_ T]. rewrite forallb_forall in T. auto.
 Qed.
 
 (* ================================================================ G. witnesses *)
 (* create_table + bulk_insert of 'tab<TAB>here' from base *)
 Definition wit_tab : c12_in :=
-  mkIn (mkU [] [], None) [] [mkStep [CreateTable 0 [mkCol 0 2]; BulkInsert 0 [[VText [116; 97; 98; 9; 104; 101; 114; 101]]]] [VIns 0]] [].
+  mkIn (mkU [] [], None) [] [mkStep [CreateTable 0 [mkCol 0 2 None]; BulkInsert 0 [[Some (VText [116; 97; 98; 9; 104; 101; 114; 101])]]] [VIns 0]] [].
 (* `upgrade base:base --sql`: nothing to do, yet the script drops the version table *)
 Definition wit_empty_plan : c12_in := mkIn (mkU [] [], None) [] [] [].
 (* a database at base whose (empty) version table is still there *)
 Definition wit_empty_vt : c12_in :=
-  mkIn (mkU [] [], Some []) [] [mkStep [CreateTable 0 [mkCol 0 0]; BulkInsert 0 [[VInt 1]]] [VIns 0]] [].
+  mkIn (mkU [] [], Some []) [] [mkStep [CreateTable 0 [mkCol 0 0 None]; BulkInsert 0 [[Some (VInt 1)]]] [VIns 0]] [].
 (* a branched plan inside the class: r0 <- r1, r0 <- r2 applied from r0, quotes / NULL / numbers in the rows *)
 Definition wit_ok : c12_in :=
-  mkIn (mkU [mkTable 0 [mkCol 0 1; mkCol 1 0] [[VText [105; 116; 39; 115]; VNull]]] [], Some [0]) [0]
-       [mkStep [AddColumn 0 (mkCol 2 4); BulkInsert 0 [[VText [39; 39]; VInt (-5); VNum [49; 46; 53]]]; CreateIndex 0 0 [1]] [VUpd 0 1];
-        mkStep [CreateTable 1 [mkCol 3 2]; Execute (RInsert 1 [VText [97; 59; 10; 98]]); Execute (RUpdateAll 0 1 (VInt 7))] [VIns 2]] [32; 9; 120; 32].
+  mkIn (mkU [mkTable 0 [mkCol 0 1 None; mkCol 1 0 (Some (VInt 3))] [[VText [105; 116; 39; 115]; VNull]]] [], Some [0]) [0]
+       [mkStep [AddColumn 0 (mkCol 2 4 (Some (VNum [49; 46; 53])));
+                BulkInsert 0 [[Some (VText [39; 39]); Some VNull; None]; [None; None; Some (VNum [50; 46; 53])]]; CreateIndex 0 0 [1]] [VUpd 0 1];
+        mkStep [CreateTable 1 [mkCol 3 2 (Some (VText [100]))];
+                Execute (RInsert 1 [Some [39; 49; 50; 92; 58; 51; 48; 39]]); Execute (RInsert 1 [None]);
+                Execute (RUpdateAll 0 1 [55])] [VIns 2]] [32; 9; 120; 32].
 
 Lemma refuted_tab : exists i, lits_roundtripb (i_steps i) = true /\ start_okb i = true /\ ~ C12_holds i (model_C12 i).
 Proof. exists wit_tab. split; [vm_compute; reflexivity|]. split; [vm_compute; reflexivity|]. vm_compute. discriminate. Qed.
